@@ -109,6 +109,22 @@ class Codec(Suite):
             out.append({"g": "limits/" + tag, "v": v})
         for tag, v in J.directed_hardening():
             out.append({"g": "directed/" + tag, "v": v})
+        # text that looks like the syntax being written: as a value, as a key, nested, and on every encoder path
+        # (plain; the stdlib fall-back inside the orjson configuration is reached through nesting deeper than
+        # orjson's encoder accepts, which keeps the value inside the property's 64-bit domain)
+        srng = ctx.sub_rng("c17-syntax", budget)
+        for t in J.syntax_texts(srng, 120 if budget == "quick" else 3000):
+            kind_ = srng.randrange(4)
+            sv = J.S(t)
+            if kind_ == 0:
+                v = sv
+            elif kind_ == 1:
+                v = {"o": [[J.cps(t), sv]]}
+            elif kind_ == 2:
+                v = {"a": [sv, {"o": [[J.cps("k"), sv], [J.cps(t), {"a": [sv, None]}]]}]}
+            else:
+                v = J.chain("alt", 300, {"o": [[J.cps(t), {"a": [sv]}]]})
+            out.append({"g": "syntax-text", "v": v})
         d2 = J.exhaustive(LEAVES_D2, KEYS, 2, 2)
         out += [{"g": "exhaustive/depth<=2", "v": v} for v in d2]
         d3 = [v for v in J.exhaustive(LEAVES_D3, KEYS, 3, 2) if J.depth(v) == 3]
@@ -136,16 +152,16 @@ class Codec(Suite):
         ws = J.worker(block_orjson=True)
         vals = [c["v"] for c in cases]
         info = {"o": wo.call({"op": "info"}), "s": ws.call({"op": "info"})}
-        do = wo.call({"op": "dumps", "values": vals})
-        ds = ws.call({"op": "dumps", "values": vals})
+        do = wo.call({"op": "dumps", "values": vals, "debug_every": 4})
+        ds = ws.call({"op": "dumps", "values": vals, "debug_every": 4})
         texts, idx = [], []
         for i, (a, b) in enumerate(zip(do["out"], ds["out"])):
             for tag, r in (("o", a), ("s", b)):
                 if "text" in r:
                     idx.append((i, tag))
                     texts.append(r["text"])
-        lo = wo.call({"op": "loads", "texts": texts})["out"]
-        ls = ws.call({"op": "loads", "texts": texts})["out"]
+        lo = wo.call({"op": "loads", "texts": texts, "debug_every": 3})["out"]
+        ls = ws.call({"op": "loads", "texts": texts, "debug_every": 3})["out"]
         small = [i for i, c in enumerate(cases) if not J.is_compact(c["v"])]
         ro = wo.call({"op": "reuse", "values": [vals[i] for i in small]})["out"]
         rs = ws.call({"op": "reuse", "values": [vals[i] for i in small]})["out"]
@@ -251,7 +267,7 @@ class Codec(Suite):
                 return ("aliased-loads/" + tag, f"decoding the same text twice does not give independent, equal values ({name})", None)
         if not J.fits64(v):
             return None
-        want = core.canon(J.unordered(v))
+        want = core.canon(J.unordered(J.normal(v) if J.is_compact(v) else v))
         for wtag in ("o", "s"):
             for rtag in ("o", "s"):
                 got = o["loads"].get(wtag + rtag)
@@ -292,6 +308,8 @@ class EntryPoints(Suite):
         vals = [v for _, v in J.directed() if not J.is_compact(v)][:: (6 if budget == "quick" else 1)]
         vals += [v for tag, v in J.directed_hardening() if tag in ("falsy", "twin", "text")][:: (5 if budget == "quick" else 1)]
         vals += [J.chain("alt", d, {"s": J.cps("é")}) for d in (200, 1100)]
+        srng = ctx.sub_rng("c17-entry-syntax", budget)
+        vals += [{"o": [[J.cps(t), {"a": [J.S(t)]}]]} for t in J.syntax_texts(srng, 10 if budget == "quick" else 300)[:: (3 if budget == "quick" else 1)]]
         vals += [J.rand_value(rng, rng.choice([3, 4, 5]), 0.0, 3) for _ in range(150 if budget == "quick" else 3000)]
         out = []
         for i, v in enumerate(vals):
@@ -314,16 +332,16 @@ class EntryPoints(Suite):
     def impl_batch(self, cases):
         wo, ws = J.worker(block_orjson=False), J.worker(block_orjson=True)
         items = [{"v": c["v"], "how": c["how"]} for c in cases]
-        do = wo.call({"op": "dumps2", "items": items})["out"]
-        ds = ws.call({"op": "dumps2", "items": items})["out"]
+        do = wo.call({"op": "dumps2", "items": items, "debug_every": 3})["out"]
+        ds = ws.call({"op": "dumps2", "items": items, "debug_every": 3})["out"]
         reads, idx = [], []
         for i, (c, a, b) in enumerate(zip(cases, do, ds)):
             for tag, r in (("o", a), ("s", b)):
                 if "text" in r:
                     idx.append((i, tag))
                     reads.append({"t": r["text"], "how": c["read"]})
-        lo = wo.call({"op": "loads2", "items": reads})["out"]
-        ls = ws.call({"op": "loads2", "items": reads})["out"]
+        lo = wo.call({"op": "loads2", "items": reads, "debug_every": 4})["out"]
+        ls = ws.call({"op": "loads2", "items": reads, "debug_every": 4})["out"]
         obs = [{"dumps": {"o": a, "s": b}, "loads": {}} for a, b in zip(do, ds)]
         for (i, tag), a, b in zip(idx, lo, ls):
             obs[i]["loads"][tag + "o"] = a
@@ -344,7 +362,7 @@ class EntryPoints(Suite):
                 return (f"raw-line-break/{how}/{tag}", f"compact encoding via {how} contains a raw line break ({name})", None)
         if not fits:
             return None
-        want = core.canon(J.unordered(v))
+        want = core.canon(J.unordered(J.normal(v) if J.is_compact(v) else v))
         for wtag in ("o", "s"):
             for rtag in ("o", "s"):
                 got = o["loads"].get(wtag + rtag)
